@@ -87,7 +87,7 @@ fn write_replay(path: &str, master: u64, index: u64, w: &Workload, res: &RunResu
         schedule: rle_encode(&res.trace),
         violation: v,
         minimised,
-        deterministic_replay: true,
+        deterministic_replay: !res.stats.sched.foreign_block,
         event_log_tail: tail,
         notes,
     };
@@ -150,6 +150,7 @@ struct Agg {
     max_history_len: u64,
     policies: BTreeMap<String, u64>,
     stalls: u64,
+    foreign_block_runs: u64,
     digests: Vec<(u64, u64)>,
 }
 
@@ -231,6 +232,9 @@ fn cmd_batch(args: &[String]) {
         if engine == Engine::B {
             *agg.policies.entry(policy_name(&w.sched.policy).to_string()).or_insert(0) += 1;
             agg.stalls += w.sched.stalls.len() as u64;
+            if st.sched.foreign_block {
+                agg.foreign_block_runs += 1;
+            }
             for p in &st.sched.preempt_pairs {
                 agg.preempt_pairs.insert(*p);
             }
@@ -244,7 +248,7 @@ fn cmd_batch(args: &[String]) {
             agg.runs_both_paths += 1;
             agg.nontrivial.push(util::digest_words(&[w.run_seed, st.run_digest]));
         }
-        if keep_digests {
+        if keep_digests && !st.sched.foreign_block {
             agg.digests.push((index, st.run_digest));
         }
         if sample.is_none() && st.executions >= 3 && (engine != Engine::B || st.sched.switches_while_two_in_exec > 0) {
@@ -298,6 +302,7 @@ fn cmd_batch(args: &[String]) {
         "max_history_len": agg.max_history_len,
         "policies": agg.policies,
         "stall_overlays": agg.stalls,
+        "inconclusive_foreign_block_runs": agg.foreign_block_runs,
         "run_digests": agg.digests.iter().map(|(i, d)| (i.to_string(), format!("{:016x}", d))).collect::<BTreeMap<String, String>>(),
         "sample": sample,
         "violation": violation,
